@@ -16,7 +16,7 @@ from stubs import posixfs, sqlshim
 from harness.sync import same_dict
 
 SYMBOLIC_KEYS = ('dict', 'null', 'file', 'filejson')
-UNIVERSE = {'dir': ('a', 'b', 1, ('t', 2)), 'dirjson': ('a', 'b', 1), 'dirfast': ('a', 'b', ('t', 2)),
+UNIVERSE = {'dir': ('a', 'b', 1, ('t', 2), 'c-d'), 'dirjson': ('a', 'b', 1, 'c-d'), 'dirfast': ('a', 'b', ('t', 2)),
             'sql': ('a', 'b', 1), 'sqlfile': ('a', 'b', 1)}
 PERSISTENT = ('file', 'filejson', 'dir', 'dirjson', 'dirfast', 'sqlfile')
 
